@@ -4,6 +4,7 @@ Executable model of dfs/main.cc and dfs/img_load.cc: option parsing
 dispatch, exit status.
 -/
 import Beeb.Model.Cmd
+import Beeb.Model.FluxImg
 import Std.Data.HashMap
 
 namespace Beeb
@@ -13,7 +14,7 @@ namespace Beeb
     carries the inflated bytes of the first member, or `bad` -/
 inductive HostFile where
   | missing
-  | raw (content : Array Sector) (size : Nat)
+  | raw (content : Array Sector) (size : Nat) (tail : Bytes := [])   -- whole sectors, byte size, trailing partial sector
   | sparse (sectors : Nat) (tbl : Std.HashMap Nat Sector)   -- mostly-zero file (large MMB images)
   | gzBad
 deriving Inhabited
@@ -119,9 +120,21 @@ inductive Attach where
   | abort (site : String)
   | unmodelled (what : String)
   | ok (views : List View) (warned : Bool := false)
+  | flux (sides : List (View × Media)) (noise : Bool)   -- each side is its own block device
 
 /-- the views an image file presents (NonInterleavedFile / InterleavedFile / MmbFile ctors) -/
-def imageViews (name : Bytes) (m : Media) (ld : Loader) (ndebug : Bool) : Attach :=
+def fluxAttach (r : Flux.FluxRes) (rb : Flux.FluxSide → Nat → Option Sector) (total : Flux.FluxSide → Nat) : Attach :=
+  match r with
+  | .fail => .fail
+  | .ok sides noise => .flux (sides.map fun s => (Flux.sideView s.geom (total s), rb s)) noise
+
+/-- all bytes of a host file -/
+def HostFile.flat : HostFile → Flux.FileData
+  | .raw secs _ tail => (secs.foldl (fun acc s => acc ++ s.toArray) #[]) ++ tail.toArray
+  | .sparse n tbl => (List.range n).foldl (fun acc i => acc ++ (tbl.getD i (List.replicate 256 0)).toArray) #[]
+  | _ => #[]
+
+def imageViews (name : Bytes) (hf : HostFile) (m : Media) (ld : Loader) (ndebug : Bool) : Attach :=
   match ld with
   | .nonInterleaved =>
     match identifyImage m (bytesToString name) ndebug with
@@ -153,8 +166,8 @@ def imageViews (name : Bytes) (m : Media) (ld : Loader) (ndebug : Bool) : Attach
     match secs 32 0 [] false with
     | none => .fail        -- BadFileSystem("MMB file is too short") reaches main's handler
     | some (vs, w) => .ok vs w
-  | .hfe => .unmodelled "hfe"
-  | .hxcmfm => .unmodelled "hxcmfm"
+  | .hfe => fluxAttach (Flux.loadHfe hf.flat) Flux.hfeReadBlock (fun s => s.sectors.length)
+  | .hxcmfm => fluxAttach (Flux.loadHxc hf.flat) Flux.hxcReadBlock (fun s => 256 * s.geom.sectors)
 
 structure MainState where
   storage : Storage := Storage.empty
@@ -218,10 +231,10 @@ def attachFile (fs : HostFs) (ndebug : Bool) (arg : Bytes) (st : MainState) : Ex
     | .gzBad => .error { err := true, exit := 1 }
     | hf =>
       let m : Media := match hf with
-        | .raw secs _ => mediaOfArray secs
+        | .raw secs _ _ => mediaOfArray secs
         | .sparse n tbl => fun lba => if lba < n then some (tbl.getD lba (List.replicate 256 0)) else none
         | _ => fun _ => none
-      match imageViews arg m ld ndebug with
+      match imageViews arg hf m ld ndebug with
       | .fail => .error { err := true, exit := 1 }
       | .abort s => .error { err := true, exit := 134, crash := some s }
       | .unmodelled w => .error { unmodelled := some w }
@@ -246,6 +259,25 @@ def attachFile (fs : HostFs) (ndebug : Bool) (arg : Bytes) (st : MainState) : Ex
           match st.storage.connect ds st.policy with
           | none => .error { err := true, exit := 1 }
           | some s' => .ok { st with storage := s', medias := st.medias ++ [m], verbose := st.verbose || warned }
+      | .flux sides noise =>
+        -- HfeFile/HxcMfmFile::connect_drives: every side is probed
+        let idx := st.medias.length
+        let rec fcfgs : Nat → List (View × Media) → Except RunRes (List DriveCfg)
+          | _, [] => .ok []
+          | k, (v, sm) :: vs =>
+            match identifyFileSystem (v.readBlock sm) v.geom false ndebug with
+            | .abort s => .error { err := true, exit := 134, crash := some s }
+            | .err _ => .error { err := true, exit := 1 }
+            | .ok f =>
+              match fcfgs (k + 1) vs with
+              | .ok r => .ok ({ file := idx + k, view := v, fmt := f } :: r)
+              | .error e => .error e
+        match fcfgs 0 sides with
+        | .error e => .error e
+        | .ok ds =>
+          match st.storage.connect ds st.policy with
+          | none => .error { err := true, exit := 1 }
+          | some s' => .ok { st with storage := s', medias := st.medias ++ sides.map (·.2), verbose := st.verbose || noise }
 
 /-- the option loop of `main` -/
 def optLoop (fs : HostFs) (ndebug : Bool) : List Opt → MainState → Except RunRes MainState
